@@ -48,6 +48,38 @@ var (
 	}}
 )
 
+// In-place permutations: no matrix operand, so only the "no word outside
+// the receiver's window changes" clause can fail (cs.idx = p, cs.trans =
+// inverse).
+var (
+	mDensePermRows = &method{name: "Dense.PermuteRows", call: func(r any, _ []mat.Matrix, cs *caseSpec) { dn(r).PermuteRows(append([]int(nil), cs.idx...), cs.trans) }}
+	mDensePermCols = &method{name: "Dense.PermuteCols", call: func(r any, _ []mat.Matrix, cs *caseSpec) { dn(r).PermuteCols(append([]int(nil), cs.idx...), cs.trans) }}
+)
+
+// permClasses returns identity, reversal, rotation and a single swap of n.
+func permClasses(n int) [][]int {
+	id, rev, rot, sw := make([]int, n), make([]int, n), make([]int, n), make([]int, n)
+	for t := 0; t < n; t++ {
+		id[t], rev[t], rot[t], sw[t] = t, n-1-t, (t+1)%n, t
+	}
+	if n > 1 {
+		sw[0], sw[n-1] = n-1, 0
+	}
+	return [][]int{id, rev, rot, sw}
+}
+
+func genDensePermute(e *emitter, i int) {
+	recv := e.sh(kDense, e.u.wins[i])
+	for _, inv := range []bool{false, true} {
+		for _, p := range permClasses(recv.w.r) {
+			e.run(mDensePermRows, recv, nil, caseSpec{idx: p, trans: inv})
+		}
+		for _, p := range permClasses(recv.w.c) {
+			e.run(mDensePermCols, recv, nil, caseSpec{idx: p, trans: inv})
+		}
+	}
+}
+
 // kinds a private matrix operand ranges over.
 var otherMat = []kind{kDense, kDenseT, kBasic, kSym, kTriU, kVec, kRawWrap, kDiag, kTriLT}
 var otherVec = []kind{kVec, kVecT, kBasicVec}
@@ -460,4 +492,5 @@ func runDense(c *vrt.Ctx, u *universe) {
 	family(c, u, "dense.rankone", n, genDenseRankOne)
 	family(c, u, "dense.kron", n, genDenseKron)
 	family(c, u, "dense.stack", n, genDenseStack)
+	family(c, u, "dense.permute", n, genDensePermute)
 }
